@@ -52,6 +52,9 @@ type Gen struct {
 	NearSuccess bool
 	// Prepop: Parse cases only, into a fully populated destination
 	Prepop bool
+	// Pre: wrap nodes below the top level in Preprocess schemas written for the case's mode
+	Pre  bool
+	mode string
 }
 
 func (g *Gen) id() int { g.nextID++; return g.nextID }
@@ -276,7 +279,51 @@ func (g *Gen) Node(depth int) *Node {
 	} else {
 		kind = rng.Pick(r, []string{"prim", "prim", "prim", "prim", "prim", "prim", "struct", "struct", "slice", "slice", "ptr", "ptr", "custom"})
 	}
-	return g.NodeOf(kind, depth)
+	n := g.NodeOf(kind, depth)
+	if g.Pre && depth >= 1 && r.P(30, 100) {
+		return g.wrapPre(n)
+	}
+	return n
+}
+
+// wrapPre wraps n in a Preprocess node whose function is written for the mode of the case being generated.
+func (g *Gen) wrapPre(n *Node) *Node {
+	r := g.R
+	isPrim := func(pks ...string) bool {
+		if n.Kind != "prim" {
+			return false
+		}
+		for _, pk := range pks {
+			if n.PK == pk {
+				return true
+			}
+		}
+		return false
+	}
+	w := &Node{Kind: "pre", Elem: n, PreID: g.id()}
+	if g.mode == "v" {
+		if !isPrim("int", "str", "bool") {
+			return n
+		}
+		w.PreKind = rng.Pick(r, []string{"vid", "vinc", "vinc", "vfail"})
+		if w.PreKind == "vfail" {
+			w.PreMsg = rng.Pick(r, []string{"boom", "bad value", ""})
+		}
+		return w
+	}
+	switch {
+	case isPrim("int"):
+		w.PreKind = rng.Pick(r, []string{"atoi", "atoi", "atoi", "idany", "mismatch", "fail"})
+	case isPrim("str"):
+		w.PreKind = rng.Pick(r, []string{"trim", "trim", "idany", "fail", "failissue"})
+	default:
+		w.PreKind = rng.Pick(r, []string{"idany", "idany", "idany", "idany", "fail", "failissue"})
+	}
+	if w.PreKind == "failissue" {
+		w.PreIss = PostSpec{Code: rng.Pick(r, []string{"pre_code", "custom", ""}), Path: rng.Pick(r, []string{"", "elsewhere", "a.b"}),
+			Msg: rng.Pick(r, []string{"pre says no", ""}), DType: rng.Pick(r, []string{"string", "number", ""})}
+	}
+	return w
 }
 
 func (g *Gen) NodeOf(kind string, depth int) *Node {
@@ -504,6 +551,14 @@ func (g *Gen) Input(n *Node) V {
 		return rng.Pick(r, []V{VNil(), VNil(), VStr(""), VStr("  ")})
 	}
 	switch n.Kind {
+	case "pre":
+		switch n.PreKind {
+		case "atoi":
+			return rng.Pick(r, []V{VStr(fmt.Sprint(g.smallInt())), VStr(fmt.Sprint(g.smallInt())), VStr(fmt.Sprint(g.smallInt())), VStr("+7"), VStr("zz"), VStr(" 5"), VInt(3), VStr("0")})
+		case "trim":
+			return rng.Pick(r, []V{VStr(rng.Pick(r, strPool)), VStr(" " + rng.Pick(r, strPool) + "\t"), VStr(rng.Pick(r, strPool)), VInt(4)})
+		}
+		return g.Input(n.Elem)
 	case "prim":
 		if r.P(8, 100) {
 			return rng.Pick(r, []V{VList(VInt(1)), VObj(KV{"k", VInt(1)}), {K: "x", Desc: "chan"}, VStr("zz")})
@@ -573,6 +628,8 @@ func (g *Gen) DestValue(n *Node, zeroP int) D {
 		zeroP = 0
 	}
 	switch n.Kind {
+	case "pre":
+		return g.DestValue(n.Elem, zeroP)
 	case "prim":
 		if r.P(zeroP, 100) {
 			return ZeroD(n)
@@ -651,6 +708,12 @@ func collectLayouts(n *Node, set map[string]bool) {
 func (g *Gen) Case(id int) *Case {
 	r := g.R
 	c := &Case{ID: id}
+	if g.Pre {
+		g.mode = "p"
+		if r.P(45, 100) {
+			g.mode = "v"
+		}
+	}
 	c.Schema = g.Node(0)
 	if g.FmtModes {
 		c.Fmt = rng.Pick(r, []string{"", "", "exec:en", "exec:es", "i18n:-", "i18n:es", "i18n:en", "i18n:fr"})
@@ -664,7 +727,7 @@ func (g *Gen) Case(id int) *Case {
 		g.Populated = saved
 		return c
 	}
-	if r.P(45, 100) {
+	if (!g.Pre && r.P(45, 100)) || (g.Pre && g.mode == "v") {
 		c.Mode = "v"
 		c.Dest = g.DestValue(c.Schema, 25)
 	} else {
